@@ -2,13 +2,13 @@ HOOKS = {
   'guard': 'cargo feature `verif` (default off) in laythe_core / laythe_vm / laythe_lib',
   'enable': 'Kani harness crates under /verif/kx depend on /repo crates by path with features=["verif"] where a private item must be reached; the Verus engine reads source text and needs no hook',
   'baseline_off_cmd': 'cd /repo && cargo nextest run --workspace --no-fail-fast --test-threads 8 --offline',
-  'source_commits': ['2f4e2ee', '649a94f'],
+  'source_commits': ['2f4e2ee', '649a94f', '0a5a8b0', 'e0d401d', '6a0a964'],
   'add_only': True,
 }
 ENGINES = [
-  {'name': 'vx', 'path': '/verif/vx', 'serves_properties': ['C01', 'C03', 'C04', 'C06', 'C07', 'C12', 'C13', 'C15', 'C16', 'C18'],
+  {'name': 'vx', 'path': '/verif/vx', 'serves_properties': ['C01', 'C03', 'C04', 'C06', 'C07', 'C09', 'C11', 'C12', 'C13', 'C15', 'C16', 'C17', 'C18'],
    'kind_free_text': 'Verus 0.2026.09.13 on functions extracted mechanically from /repo on every run (byte-for-byte item text + listed rewrites), contracts spliced from units/<unit>/contracts.vrs'},
-  {'name': 'kx', 'path': '/verif/kx', 'serves_properties': ['C01', 'C14', 'C20'],
+  {'name': 'kx', 'path': '/verif/kx', 'serves_properties': ['C01', 'C05', 'C09', 'C10', 'C11', 'C14', 'C20'],
    'kind_free_text': 'Kani 0.68 / CBMC 6.11 harness crates calling the real crates in /repo through path dependencies; loop-free full-domain harnesses are complete proofs, #[kani::unwind] harnesses are labelled bounded'},
 ]
 NOTES = ('Contract-based deductive verification of the real code (see DESIGN.md). exit 0 = all obligations discharged; '
@@ -19,10 +19,54 @@ NOT_APPLICABLE = {
   'C08': 'liveness over whole scheduling histories (fairness, deadlock iff nothing runnable): needs a protocol-level inductive invariant over fiber_queue, every waiter list and every fiber; contracts decide one call; Kani cannot construct a Vm',
   'C19': 'a property of Vm::repl / Vm::compile state across prompt entries; those functions call parser, resolver and compiler and can be neither extracted for Verus nor driven by Kani',
 }
-for _p in ['C05', 'C09', 'C10', 'C11', 'C17']:
+for _p in []:
   NOT_APPLICABLE.setdefault(_p, 'planned (DESIGN.md section 4) but no check is registered yet in this commit; not claimed until its obligations are discharged on the unchanged tree')
 
 CHECKS = {
+  'C05': dict(
+    engine='kx',
+    technique='Kani bounded function-contract harnesses on the real tracing dispatch (per-kind bodies stubbed by flags) and the real Allocator sweep (ObjectHandle::drop and ObjectRef::trace stubbed by their contracts)',
+    design_ref='DESIGN.md §4 C05, §10, §13',
+    level_text=('Bounded checks only, never counted as proved: for 12 of the 13 object kinds the real `impl Trace for ObjectRef` sends an unmarked object to exactly its own kind\'s trace body once and does nothing for a marked one; '
+                'on the real Allocator with one object, a full or nursery collection retains exactly the rooted object, leaves it intact, clears its mark (a later unrooted full collection frees it), and temporary roots survive. '
+                'Per-kind trace bodies (does Method::trace reach its receiver, ...) are NOT decided: CBMC loses pointer provenance through the Value enum (documented tool limit), and the VM/compiler root sets are outside reach.'),
+    level_note=('category other: every obligation is a bounded Kani harness. A-stub: the stubs state no more than what the stubbed function\'s own check establishes. Not decided: O-05.1, root sets of Vm/Compiler/Fiber, natives\' push_root discipline, output equality across schedules.'),
+  ),
+  'C09': dict(
+    engine='vx',
+    technique='Verus contracts on the real Allocator::manage_str / has_str / sweep_intern_cache over an abstract map keyed by string content; two bounded Kani harnesses on the real Allocator in the thorough tier',
+    design_ref='DESIGN.md §4 C09, §10',
+    level_text=('Unbounded proof on the extracted real functions: the intern table invariant (every key is the content of its own value) is preserved; manage_str returns the very same object when the content is already interned and otherwise a fresh object entered under its own content; '
+                'has_str is lookup by content; sweep_intern_cache leaves exactly the marked strings (no dangling key, no lost live string). Interning twice / create-drop-collect-recreate follow from these contracts. '
+                'Thorough tier adds two bounded CBMC runs on the real Allocator (eviction of an unrooted string, retention of a rooted one across a full collection).'),
+    level_note=('Trusted: hashbrown HashMap<&str, LyStr> behaves as a mathematical map keyed by content (stub InternMap), allocate_obj returns a fresh string with the given content, the raw-pointer key cast yields the string\'s own bytes. '
+                'Not decided: that every string-producing operation goes through manage_str.'),
+  ),
+  'C10': dict(
+    engine='kx',
+    technique='Kani bounded harnesses on the real List / RawSharedVector forwarding representation (Allocator::manage_obj stubbed by its contract for the growth harnesses)',
+    design_ref='DESIGN.md §4 C10, §11',
+    level_text=('Bounded checks only: a push beyond capacity forwards the old handle, every alias sees the new element and the old contents, List == List follows the forwarding chain; two lists that never grew are equal as values exactly to themselves. '
+                'The property-level obligation that two handles of ONE list stay the same Value across growth FAILS (known finding D11, witness replay/c10.lay).'),
+    level_note=('category other: bounded (one list, len 1 cap 1, one push). Not decided: which aliases scan_roots rewrites; other mutable objects never relocate.'),
+  ),
+  'C11': dict(
+    engine='kx',
+    technique='Kani loop-free harness over every f64 for index normalisation; Kani bounded harnesses of List pop/remove/insert against a sequence model; Verus proof of the native signature gate',
+    design_ref='DESIGN.md §4 C11, §10',
+    level_text=('Complete over all 2^64 index bit patterns (receiver length 0..8): determine_index returns Ok(i) iff the index is a finite integer in [-len, len), with i = idx or len+idx, always < len. '
+                'Bounded: real List::pop (quick), remove and insert (thorough) agree with the sequence model for lists up to 3 elements and every index 0..4, receiver unchanged on OutOfBounds. '
+                'Unbounded (Verus): Native::check_if_valid_call admits exactly the calls its declared signature admits, so a native body only runs on arguments of the declared kinds.'),
+    level_note=('category other because most obligations are bounded. Not decided: iterator adaptors, string and map natives, the bodies of the list/tuple natives themselves (callbacks, Hooks, str). determine_index runs with --no-overflow-checks because CBMC\'s NaN check flags inf.fract().'),
+  ),
+  'C17': dict(
+    engine='vx',
+    technique='Verus contracts on the real Module symbol/export operations over abstract map/set views',
+    design_ref='DESIGN.md §4 C17, §10',
+    level_text=('Unbounded proof on the extracted real functions: get_exported_symbol_by_name yields Some(v) iff the name is exported, and then v is the symbol\'s current value; export_symbol of an unknown or already exported name is an error and changes nothing, otherwise adds exactly that name (and the import object\'s field); '
+                'set_symbol_by_name/by_slot write exactly one slot or fail without change; insert_symbol gives a new name the next dense slot. Only these operations are decided.'),
+    level_note=('Trusted: hashbrown map/set as mathematical map/set, UniqueVector as Vec (vx/units/module/prelude.rs), rewrites R4/R6. Not decided: once-only execution of module bodies (op_import retry protocol, module cache), path resolution, module_instance construction.'),
+  ),
   'C01': dict(
     engine='vx',
     technique='Verus contracts on the real operator/control-flow op handlers of vm/ops.rs against source-level operator rules; Kani for falsiness and number equality on the real Value',
